@@ -13,6 +13,7 @@ Padding collator: explicit front-content / zeros-behind / batch-maximum check pe
 from __future__ import annotations
 
 import itertools
+import os
 
 import torch
 from torch.utils.data import default_collate
@@ -27,8 +28,9 @@ from .h18_members import (FIXED_TENSOR_ITEMS, FLOAT_ITEMS, OTHER_ITEMS, SEQ_ITEM
 LEVEL = "exploration"
 RULE = ("two case families. 'pipe': a harness sequence dataset (fixed shapes), a mode of 1..4 distinct items (tensors "
         "of several ranks/dtypes, 0-dim tensor, int, str, index, ctx.<key>), return_ctx, B in 1..8 sample indices "
-        "(random order, optional repeats), a member order over {before, after, none} of length 1..4 (all 45 orders "
-        "with 'none' only in last position are enumerated first, then sampled), builder in {direct KDSingleCollator "
+        "(random order, optional repeats), a member order of length 1..4 over {before, after, none (collates itself), "
+        "none-raw (per-sample member that returns the samples uncollated)} (all 156 driven orders are enumerated first, "
+        "then sampled: 2/3 served orders none-raw* (before+ | after before* | none), 1/3 any), builder in {direct KDSingleCollator "
         "call, KDSingleCollatorWrapper, KDComposeCollator}, per member an item it edits. 'pad': variable-length "
         "fields with a length profile (all-equal, all-zero, one-zero, random, increasing, one-long), trailing dims, "
         "B in 1..8, samples with/without ctx, collator return_ctx, same three builders. distinct by full spec; "
@@ -37,8 +39,15 @@ ASSUMPTIONS = [
     "ModeWrapper.return_ctx equals the collator's return_ctx (the pipeline's own assertion message demands it); the only "
     "mismatch driven is PadSequencesCollator on samples with ctx under return_ctx=False, which the repository's tests pin "
     "to return (batch, ctx)",
-    "a member with collation mode None is claimed only as the sole member (plus the refusal class when it follows a "
-    "collation point); 'none' followed by any other member is not driven (the property does not say who owns collation)",
+    "none-mode members come in two harness kinds. One that demonstrably leaves the batch raw (per-sample edit, returns the "
+    "sample list uncollated) may be followed by any member: the following members' requests decide the collation point "
+    "([none-raw, before] -> once ahead of the before member; [none-raw, after] -> once behind the after member; ...). One "
+    "that collates itself (like PadSequencesCollator) is claimed only in last position; a self-collating none member "
+    "followed by any other member is not driven (the property does not say who owns collation), and neither are orders "
+    "made of none-raw members only (nobody asks for collation)",
+    "orders none-raw+ , before ... are driven only with return_ctx=False: with return_ctx=True the current pipeline splits "
+    "ctx off for the none-mode member and splits a second time in the `before` branch (ValueError/assertion) - the code "
+    "does not serve that corner, it is reported separately and driven only when KDV_C18_CTX_AFTER_RAW=1",
     "a member asking for raw samples (after / none) behind the collation point is the enumerated refusal class "
     "'raw-member-after-collation': the pipeline's own assertion must refuse it",
     "list and tuple are both accepted as 'sequence of n' (default collation turns tuples into lists); bare vs sequence, "
@@ -56,9 +65,38 @@ K_WRAPPER = "wrapper:bypasses-pipeline"
 K_SETITEM = "modewrapper:set_item-single-item"
 K_PAD_BARE = "pad:bare-non-sequence-item"
 
-_CODE = {"b": "before", "a": "after", "n": None}
-ORDERS = [o for k in range(1, 5) for o in ("".join(t) for t in itertools.product("ban", repeat=k)) if "n" not in o[:-1]]
-VALID_ORDERS = [o for o in ORDERS if o == "n" or ("n" not in o and "a" not in o[1:])]  # b+, ab*, n
+# member alphabet: b = before, a = after, n = none-mode member that collates itself (like PadSequencesCollator),
+# r = none-mode member that leaves the batch raw (per-sample edit, returns the sample list uncollated)
+_CODE = {"b": ("before", False), "a": ("after", False), "n": (None, False), "r": (None, True)}
+
+
+def _order_class(o):
+    """'served' | 'refused' (a raw-sample member behind the collation point) | None (not driven)"""
+    if "n" in o[:-1] or set(o) == {"r"}:
+        return None  # a self-collating none member followed by others / nobody ever asks for collation: not claimed
+    collated = False
+    for ch in o:
+        if ch == "b":
+            collated = True
+        elif collated:
+            return "refused"
+        elif ch in "an":
+            collated = True
+    return "served"
+
+
+def _ctx_excluded(o):
+    """orders in which default collation is triggered by a `before` member after a raw none-mode member already ran:
+    with return_ctx the current pipeline splits ctx off for the none-mode member and then splits again in the `before`
+    branch - not served by the code, therefore driven only without ctx (see ASSUMPTIONS)"""
+    if os.environ.get("KDV_C18_CTX_AFTER_RAW") == "1":
+        return False
+    i = o.find("b")
+    return i > 0 and set(o[:i]) == {"r"}
+
+
+ORDERS = [o for k in range(1, 5) for o in ("".join(t) for t in itertools.product("banr", repeat=k)) if _order_class(o)]
+VALID_ORDERS = [o for o in ORDERS if _order_class(o) == "served"]  # r* followed by b+ | a b* | n
 PIPE_ITEMS = list(SEQ_ITEMS + FIXED_TENSOR_ITEMS + OTHER_ITEMS)
 PROFILES = ["equal", "zeros", "one_zero", "random", "increasing", "one_long"]
 
@@ -116,12 +154,12 @@ def _gen_pipe(rng, i):
     members = []
     for ch in order:
         op = rng.choice(floats) if floats and rng.random() < 0.8 else None
-        members.append({"cmode": _CODE[ch], "op": op})
+        members.append({"cmode": _CODE[ch][0], "raw": _CODE[ch][1], "op": op})
     builder = "compose"
     if len(order) == 1:
         builder = ["single", "wrapper", "compose"][(i // len(ORDERS)) % 3] if i < 3 * len(ORDERS) else rng.choice(["single", "wrapper", "compose"])
     return {"fam": "pipe", "order": order, "members": members, "builder": builder, "mode": " ".join(mode),
-            "ctx": rng.random() < 0.5, "B": B, "nd": nd, "idxs": _idxs(rng, nd, B),
+            "ctx": rng.random() < 0.5 and not _ctx_excluded(order), "B": B, "nd": nd, "idxs": _idxs(rng, nd, B),
             "la": rng.choice([0, 1, 2, 3, 3]), "lb": rng.choice([0, 1, 2]), "trail": rng.choice([[], [], [1], [3], [2, 2]])}
 
 
@@ -188,7 +226,10 @@ def _model(members, mode_items, raw):
             if stage == "collated":
                 return {"refuse_at": k, "inputs": inputs, "out": None, "trigger": trigger}
             inputs.append((stage, data))
-            data = default_collate(_edit_raw(data, mode_items, m["op"], k))
+            data = _edit_raw(data, mode_items, m["op"], k)
+            if cm is None and m.get("raw"):
+                continue  # per-sample member: the batch stays raw, the members behind it decide the collation point
+            data = default_collate(data)
             stage, trigger = "collated", (("after" if cm == "after" else "none"), k)
     return {"refuse_at": None, "inputs": inputs, "out": data, "trigger": trigger}
 
@@ -245,7 +286,7 @@ def _build_batch(run, spec, has_ctx):
 
 # ------------------------------------------------------------------------------------------------ pipe family
 def _pipe_desc(spec):
-    ms = ", ".join(f"{m['cmode']}" + (f"(edits {m['op']})" if m["op"] else "") for m in spec["members"])
+    ms = ", ".join(("none-raw" if m.get("raw") else f"{m['cmode']}") + (f"(edits {m['op']})" if m["op"] else "") for m in spec["members"])
     return (f"{spec['builder']}[{ms}] mode={spec['mode']!r} return_ctx={spec['ctx']} B={spec['B']} idxs={spec['idxs']}")
 
 
@@ -268,7 +309,7 @@ def _run_pipe(run, spec):
     def key(default):
         return K_WRAPPER if builder == "wrapper" else default
 
-    members = [RecMember(k, m["cmode"], m["op"], **({"dataset_mode": mode, "return_ctx": has_ctx} if builder == "single" else {}))
+    members = [RecMember(k, m["cmode"], m["op"], keep_raw=bool(m.get("raw")), **({"dataset_mode": mode, "return_ctx": has_ctx} if builder == "single" else {}))
                for k, m in enumerate(spec["members"])]
 
     def construct():
